@@ -111,11 +111,16 @@ func (a *Real64) String() string {
 // Allocate memory for derivatives of n variables.
 func (a *Real64) Alloc(n, order int) {
   if a.N != n || a.Order != order {
+    // the gradient stays valid if only the order changes (the receiver of
+    // an operation may be one of its operands)
+    keep := a.N == n && a.Order >= 1 && order >= 1
     a.N = n
     a.Order = order
     // allocate gradient if requested
     if a.Order >= 1 {
-      a.Derivative = make([]float64, n)
+      if !keep {
+        a.Derivative = make([]float64, n)
+      }
       // allocate Hessian if requested
       if a.Order >= 2 {
         a.Hessian = make([][]float64, n)
